@@ -148,6 +148,34 @@ impl Monitor for C13 {
         let rent = crate::rt::with_ctx(|c| c.rent);
         for v in ev.ix_views() {
             let Some(c) = wpix::decode(v.ix) else { continue };
+            // the Anchor implementation of the same liquidity instruction on a copy: the dynamic arrays it leaves behind must be
+            // well formed and hold the same ticks as the ones the live (Pinocchio) instruction left
+            if (ev.salt ^ v.i as u64) % 3 == 0 && crate::rt::has_anchor_twin(v.ix) {
+                let (ao, apost) = crate::rt::exec_ix_anchor_twin(v.pre, v.ix, &crate::rt::ExecOpts::default());
+                if ao.ok() {
+                    cov.probe("anchor_implementation_arrays_checked");
+                    for a in &apost {
+                        if a.owner != crate::ix::wp() || !decode::is_kind(&a.data, "DynamicTickArray") {
+                            continue;
+                        }
+                        match decode::tick_array(&a.data) {
+                            Err(TaError::Malformed(why)) => {
+                                out.push(viol("dynamic_encoding_malformed", ev.idx, format!("the Anchor implementation of {} leaves the dynamic tick array {} malformed: {}", c.name(), a.key, why)));
+                                return out;
+                            }
+                            Ok(ta) => {
+                                if let Some(Ok(live)) = v.post.data(&a.key).map(decode::tick_array) {
+                                    if live.ticks != ta.ticks || live.bitmap != ta.bitmap {
+                                        out.push(viol("anchor_pinocchio_arrays_differ", ev.idx, format!("after {} the dynamic tick array {} holds different ticks under the Anchor implementation and under the live instruction", c.name(), a.key)));
+                                        return out;
+                                    }
+                                }
+                            }
+                            _ => {}
+                        }
+                    }
+                }
+            }
             for m in &v.ix.accounts {
                 let Some(acc) = v.post.get(&m.pubkey) else { continue };
                 if acc.owner != crate::ix::wp() || !decode::is_kind(&acc.data, "DynamicTickArray") {
